@@ -14,6 +14,7 @@ THEOREMS = ["C02_stream_ends_with_finish_partial", "C02_codec_roundtrip_linear",
 LEVEL = "proof"
 STREAM = "conv.events+conv.seq"
 CHUNK = 100
+CASE_SECONDS = 60     # (default 10; the real optimiser needs about 20 s under ASan for the 1000-event case of the D2 family)
 TECHNIQUE = "Lean 4 theorems over the converter model (codec register invariant, structure of emitted streams) + spec interpreter of the real bytes + differential correspondence model<->mdsdrv.cpp"
 LEVEL_TEXT = ("see DESIGN §6 C02 and the theorem list in lean/Ctrmml/Properties/C02.lean. Three layers, all machine-checked. (1) Codec: convert_track (real model) followed by the spec "
               "interpreter Seq.run gives back the tick string for every single track over the linear fragment (all durations 0..65535, all adjacencies, 128-tick splitting, length "
@@ -39,7 +40,8 @@ LEVEL_NOTE = ("Trusted: Lean kernel; Model/MdsCodec+MdsConv+MdsFile (byte-exact 
               "codec fragment, and whole songs of the fragment, drum mode included (partial: extra hypotheses = chunk < 64 KiB, at most one loop point per channel track, called tracks "
               "without loop point / drum-mode switch, drum-mode switches outside loops, routine tracks = timeless commands before the first note, loop section ending in the drum state it "
               "starts in, no pitch envelope, platform commands agreeing between converter and timeline (PlatAgree), acceptance by the constructor). Still decided per case by the "
-              "oracle: pitch envelopes, exotic platform `cmd` opcodes, optimised songs (D2), acceptance (that the converter accepts every encodable song). Known: D2, D24 (loop point in a called channel track), "
+              "oracle: pitch envelopes, exotic platform `cmd` opcodes, optimised songs (D2 repaired in 8105fb4: a fold takes at most 255 repetitions, Properties/C01 C01_optimize_counts_le_255; the family `d2_cases` "
+              "runs 254..257, 300, 509..511, 1000 repetitions through optimiser + converter), acceptance (that the converter accepts every encodable song). Known: D24 (loop point in a called channel track), "
               "D27 (drum mode decided in text order by the writer, in execution order by the driver). The oracle's domain (skip otherwise): Timeline.inDomain and, since repo fix b6d6699 "
               "(the converter refuses a drum routine whose ending note is inside a '[]' loop: err:drumNoteInLoop), Fragment.routineNotesOutsideLoops (every routine the "
               "specification calls, execution order, has its first note outside loops); the model must refuse exactly the same songs (correspondence).")
@@ -261,12 +263,56 @@ def _cases_plain(rng, tier):
     return _cases_orig(rng, tier)
 
 
+def d2_cases(T, tier):
+    """Repair of D2 (repo 8105fb4): a phrase repeated back to back more than 255 times, optimised and
+    compiled.  Before the repair `c` x 300 became `[c]300`, compiled to `fb 2c` = 44 passes.  Same family
+    as checks/c01.py `d2_cases` (the optimiser model is slow on these songs: few cases, one to a chunk;
+    more than 700 events go as `convox` = model does not answer, the spec interpreter alone decides)."""
+    N = lambda k, d=6: (T["NOTE"], 36 + k, d, 0)
+    LS = (T["LOOP_START"], 0, 0, 0)
+    LE = lambda c: (T["LOOP_END"], c, 0, 0)
+    quick = tier == "quick"
+    out = []
+    def add(name, song, score=10):
+        cmd = "convox" if sum(len(v) for v in song.values()) > 700 else "convo"
+        out.append(Case("%s %d %s" % (cmd, score, songgen.render(song)), ("optimised", "d2-cap", name), "d2-cap"))
+    add("R=300", {0: [(T["NOTE"], 48, 6, 0)] * 300})     # the former known finding
+    for r in ([255, 256, 257] if quick else [254, 255, 256, 257, 509, 510, 511, 1000]):
+        add("R=%d" % r, {0: [N(0)] * r})
+    add("rem", {0: [N(0), N(1)] * 100 + [N(0)]})
+    add("nested", {0: [LS] + [N(0)] * 300 + [LE(2)]}, 0)
+    add("two-tracks", {0: [N(0)] * 300, 1: [N(1)] * 260})
+    if not quick:
+        add("ctx", {0: [N(3), N(4)] + [N(0)] * 300 + [N(5)]}, 0)
+        add("rem-below-cap", {0: [N(0), N(1)] * 254 + [N(0)]})
+        add("rem-at-cap", {0: [N(0), N(1)] * 255 + [N(0)]})
+        add("rem-above-cap", {0: [N(0), N(1)] * 300 + [N(0)]})
+        add("rem-1000", {0: [N(0), N(1)] * 500 + [N(0)]})
+        add("two-tracks-same", {0: [N(0)] * 300, 1: [N(0)] * 300})
+        add("two-tracks-1000", {0: [N(0)] * 1000, 1: [N(1)] * 300})
+    return out
+
+
 def cases(rng, tier):
+    """the heavy cases of the D2 family go one to a chunk, so that the (slow) optimiser model runs them in parallel"""
+    heavy = None
+    k = 0
+    for c in _cases_all(rng, tier):
+        if heavy is None:
+            heavy = d2_cases(songgen.event_types(), tier)
+        if k % CHUNK == 0 and heavy:
+            yield heavy.pop(0)
+            k += 1
+        yield c
+        k += 1
+    for c in heavy or []:
+        yield c
+
+
+def _cases_all(rng, tier):
     """the unoptimised stream, then the same kind of songs through `mmlc -O` (optimise, then convert)"""
     for c in _cases_orig(rng, tier):
         yield c
-    # D2: more than 255 repeats folded into one loop
-    yield Case("convo 10 T0:" + ",".join(["2.48.6.0"] * 300), ("corpus", "optimised"), "corpus")
     from checks import c01
     T = songgen.event_types()
     n = 150 if tier == "quick" else 2500
@@ -278,6 +324,18 @@ def cases(rng, tier):
         # stay inside the encodable domain: loop point only at depth 0 (motif_song does that), notes in range
         made += 1
         yield Case("convo %d %s" % (rng.choice([0, 3, 10]), songgen.render(song)), ("optimised",), "optimised")
+
+
+SIZE_LIMIT = {"n": 0}
+
+
+def agree(case, impl, model):
+    """correspondence: equal answers; `convox` requests (songs beyond the reach of the list-based optimiser
+    model, Driver/Song.lean `optModelDeclines`) are decided by the spec interpreter on the real bytes alone"""
+    if case.req.startswith("convox ") and model.startswith("MODEL:size-limit"):
+        SIZE_LIMIT["n"] += 1
+        return True
+    return impl == model
 
 
 def outcome_class(a):
@@ -305,6 +363,11 @@ def _report():
 
 import atexit
 atexit.register(_report)
+
+
+def judge_notes(cases, impl, judge):
+    if SIZE_LIMIT["n"]:
+        yield "%d `convox` cases beyond the reach of the optimiser model: decided by the spec interpreter on the real bytes only" % SIZE_LIMIT["n"]
 
 
 def segno_in_callee(req):
@@ -434,11 +497,6 @@ def finding_key(case, impl, judge):
         if impl.startswith("err:drumNoteInLoop") and case.req.startswith("conv ") and drum_dynamic(case.req):
             return "drum-mode-dynamic"
         return "rejects-encodable:" + impl.split(" ")[0][:40]
-    if case.req.startswith("convo"):
-        # an optimised song whose folded loop count does not fit the one-byte LPF operand
-        m = re.search(r"251\.(\d+)", impl)
-        if any(int(x) > 255 for x in re.findall(r"[;:|]251\.(\d+)", impl)):
-            return "optimised:loop-count>255"
     if case.req.startswith("conv ") and drum_dynamic(case.req):
         return "drum-mode-dynamic"
     if "interpreter stopped" in judge:
